@@ -705,6 +705,7 @@ def run_case(arg):
         "keeps_ids": case["keeps_ids"],
         "carried": case["carried"],
         "carry_exact": case["carry_exact"],
+        "fe_slots": case.get("fe_slots", "fixed"),
         "complete": case["complete"],
         "nn": case["nn"],
         "disk": bool(disk),
